@@ -20,8 +20,10 @@ import (
 	"strconv"
 	"strings"
 	"sync"
+	"sync/atomic"
 	"testing"
 	"testing/synctest"
+	"time"
 
 	"github.com/modelcontextprotocol/go-sdk/internal/jsonrpc2"
 	"github.com/modelcontextprotocol/go-sdk/jsonrpc"
@@ -51,6 +53,128 @@ func (*vcBadParams) isParams()               {}
 func (x *vcBadParams) isNil() bool           { return x == nil }
 
 var errVcBroken = errors.New("verif: broken pipe")
+
+// vcDeadlineCtx is a caller context that ends the way a deadline does: once done, Err reports
+// context.DeadlineExceeded (every second generated call uses it; the others end with Canceled).
+type vcDeadlineCtx struct{ context.Context }
+
+func (d vcDeadlineCtx) Err() error {
+	if d.Context.Err() != nil {
+		return context.DeadlineExceeded
+	}
+	return nil
+}
+
+// --- hang watchdog.  Every step ends with synctest.Wait(); if SDK code blocks a bubble goroutine
+// on something that is not durable (a package-level channel or lock), Wait never returns and no
+// record could be written.  A goroutine outside the bubble therefore watches a heartbeat in REAL
+// time; when a step has been waiting for vcHangAfter it writes a final record
+//   <case> \t hang <the step> \t hang <goroutines of the bubble that are blocked but not durably> \t hang
+// and ends the process (the records written so far are evaluated as usual).
+const vcHangAfter = 90 * time.Second
+
+var (
+	vcBeat    atomic.Int64 // odd while a step waits for quiescence
+	vcPending atomic.Value // *vcPend: the step being waited for
+)
+
+type vcPend struct {
+	cs, op string
+	c      *vcCase
+}
+
+func vcWatchdog(out *verifOut) (stop func()) {
+	quit := make(chan struct{})
+	go func() {
+		last, since := int64(-1), time.Now()
+		for {
+			select {
+			case <-quit:
+				return
+			case <-time.After(2 * time.Second):
+			}
+			b := vcBeat.Load()
+			if b != last || b%2 == 0 {
+				last, since = b, time.Now()
+				continue
+			}
+			if time.Since(since) < vcHangAfter {
+				continue
+			}
+			pd, _ := vcPending.Load().(*vcPend)
+			if pd == nil {
+				pd = &vcPend{"?", "?", nil}
+			}
+			// callers whose context was cancelled and that have not returned (the bubble is hung: reading
+			// the case's bookkeeping from here does not race with anything that still runs)
+			var late []string
+			if pd.c != nil {
+				for _, cl := range pd.c.calls {
+					if cl.ctxd && !cl.done {
+						late = append(late, fmt.Sprintf("c%d", cl.n))
+					}
+				}
+			}
+			lt := ""
+			if len(late) > 0 {
+				lt = "cancelled-callers-still-blocked=" + strings.Join(late, ",") + " "
+			}
+			out.line(pd.cs, "hang "+pd.op, "hang "+lt+"blocked="+vcBlockedSummary(), "hang")
+			out.flush()
+			os.Exit(0)
+		}
+	}()
+	return func() { close(quit) }
+}
+
+// vcBlockedSummary lists the goroutines of a synctest bubble that are blocked but not durably
+// (which is what keeps synctest.Wait from returning): "<state> at <innermost non-runtime frame>".
+func vcBlockedSummary() string {
+	buf := make([]byte, 4<<20)
+	buf = buf[:runtime.Stack(buf, true)]
+	var outl []string
+	for _, g := range strings.Split(string(buf), "\n\n") {
+		lines := strings.Split(g, "\n")
+		if len(lines) < 3 || !strings.Contains(lines[0], "synctest bubble") || strings.Contains(lines[0], "durable") || strings.Contains(lines[0], "running") || strings.Contains(lines[0], "runnable") {
+			continue
+		}
+		hdr := lines[0]
+		state := hdr
+		if i, j := strings.Index(hdr, "["), strings.Index(hdr, "]"); i >= 0 && j > i {
+			state = strings.Split(hdr[i+1:j], ",")[0]
+		}
+		where := "?"
+		for k := 1; k+1 < len(lines); k += 2 {
+			fn, loc := lines[k], strings.TrimSpace(lines[k+1])
+			if strings.HasPrefix(fn, "runtime.") || strings.HasPrefix(fn, "sync.") || strings.HasPrefix(fn, "internal/") || strings.HasPrefix(fn, "testing/synctest.") {
+				continue
+			}
+			if i := strings.LastIndex(loc, "/"); i >= 0 {
+				loc = loc[i+1:]
+			}
+			if i := strings.Index(loc, " "); i >= 0 {
+				loc = loc[:i]
+			}
+			if i := strings.Index(fn, "("); i > 0 && !strings.HasPrefix(fn, "created by") {
+				fn = fn[:i]
+			}
+			if i := strings.LastIndex(fn, "/"); i >= 0 {
+				fn = fn[i+1:]
+			}
+			where = fn + "@" + loc
+			break
+		}
+		outl = append(outl, strings.ReplaceAll(state, " ", "-")+":"+where)
+	}
+	sort.Strings(outl)
+	if len(outl) > 6 {
+		outl = outl[:6]
+	}
+	if len(outl) == 0 {
+		return "none-identified"
+	}
+	return strings.Join(outl, ";")
+}
 
 type vcCase struct {
 	t      *testing.T
@@ -367,6 +491,9 @@ func (c *vcCase) envCall() string { return c.envCallWith(nil) }
 
 func (c *vcCase) envCallWith(params Params) string {
 	ctx, cancel := context.WithCancel(context.Background())
+	if len(c.calls)%2 == 1 { // c2, c4, …: the caller's context ends like a deadline (Err = DeadlineExceeded)
+		ctx = vcDeadlineCtx{ctx}
+	}
 	cl := &vcCall{n: len(c.calls) + 1, ctx: ctx, cancel: cancel}
 	c.calls = append(c.calls, cl)
 	go func() {
@@ -536,7 +663,10 @@ func (c *vcCase) readAction(snap jsonrpc2.VerifState) string {
 }
 
 func (c *vcCase) emit(out *verifOut, cs, op string, tags ...string) {
+	vcPending.Store(&vcPend{cs, op, c})
+	vcBeat.Add(1)
 	synctest.Wait()
+	vcBeat.Add(1)
 	obs := c.observe()
 	out.line(cs, op, obs, tags...)
 	out.flush() // a panic on an SDK goroutine (e.g. "retire called twice" in the reader) kills the process: keep what was observed
@@ -672,6 +802,13 @@ func vcRunCase(t *testing.T, out *verifOut, cs string, rng *rand.Rand, script []
 
 	envBudget := 10 + rng.Intn(14)
 	maxSteps := 40 + rng.Intn(100)
+	// "cancel storm" cases: many calls are cancelled while the writer is stalled for the detached
+	// cancellation notices (their transport Write is not released before the drain phase)
+	storm := 0
+	if script == nil && rng.Intn(12) == 0 {
+		storm = 9 + rng.Intn(5)
+		envBudget, maxSteps = 3*storm, 60+12*storm
+	}
 	step := func(force bool) bool {
 		synctest.Wait()
 		type opt struct {
@@ -702,7 +839,15 @@ func vcRunCase(t *testing.T, out *verifOut, cs string, rng *rand.Rand, script []
 				}
 				continue
 			}
+			if storm > 0 && !force && strings.HasPrefix(p.name, "WR:x") {
+				continue // the writer is stalled for cancellation notices
+			}
 			opts = append(opts, opt{func() (string, string) { return c.releaseParked(p, force) }})
+		}
+		if storm > 0 && !force && envBudget > 0 && len(c.calls) < storm && rng.Intn(2) == 0 {
+			envBudget--
+			c.emit(out, cs, c.envCall(), "ecall")
+			return true
 		}
 		if !force && envBudget > 0 {
 			opts = append(opts,
@@ -721,7 +866,7 @@ func vcRunCase(t *testing.T, out *verifOut, cs string, rng *rand.Rand, script []
 				opts = append(opts, opt{func() (string, string) { envBudget--; return c.envWait(), "ewait" }})
 			}
 		}
-		if cc := c.ctxCancellable(); len(cc) > 0 && (force || rng.Intn(3) == 0) {
+		if cc := c.ctxCancellable(); len(cc) > 0 && (force || storm > 0 || rng.Intn(3) == 0) {
 			opts = append(opts, opt{func() (string, string) {
 				cl := cc[rng.Intn(len(cc))]
 				cl.ctxd = true
@@ -937,6 +1082,7 @@ func vcReadOps(path string) []string {
 func TestVerifConn(t *testing.T) {
 	out := verifOpen(t)
 	defer out.close()
+	defer vcWatchdog(out)()
 	if p := os.Getenv("VERIF_REPLAY"); p != "" {
 		synctest.Test(t, func(t *testing.T) { vcRunCase(t, out, "replay", verifRng(0), vcReadOps(p)) })
 		return
